@@ -155,7 +155,7 @@ class Tr4(Tr):
             args = [slots[p] for p in order]
         if nd in t.calls and "{" in t.calls[nd][0]:
             spec = t.calls[nd]
-            txt = self.fmt(spec[0], d, *[self.e(a) for a in args])
+            txt = self.fmt(spec[0], d, *([self.e(a) for a in args] + ["none"] * 3))      # an omitted optional argument is None
             if spec[1]:
                 self.uses_bind = True
                 return f"(← {txt})"
@@ -205,6 +205,9 @@ class Tr4(Tr):
                 return self.block(rest, ind)
             if isinstance(s, ast.Return) and s.value is not None and t.ret_with_self:
                 return f"{pad}return ({self.e(s.value)}, self)"
+            if isinstance(s, ast.Return) and isinstance(s.value, ast.Subscript) and isinstance(s.value.value, ast.Attribute) \
+                    and (self.base_name(s.value.value.value), s.value.value.attr) in t.index_attrs and t.ret.startswith("Option"):
+                return f"{pad}return {self.e(s.value)}"          # a mapped lookup already is an Option
             if isinstance(s, ast.Expr) and isinstance(s.value, ast.Call) and self.dotted(s.value.func) in t.self_calls \
                     and not s.value.args and not s.value.keywords:
                 return f"{pad}let self := {t.self_calls[self.dotted(s.value.func)]} self\n" + self.block(rest, ind)
@@ -253,6 +256,10 @@ class Tr4(Tr):
             a = self.ret_cond(list(s.body) + ([] if self.returns(s.body) else rest), var)
             b = self.ret_cond(list(s.orelse) + ([] if s.orelse and self.returns(s.orelse) else rest), var)
             return f"(if {c} then {a} else {b})"
+        if isinstance(s, ast.Assign) and len(s.targets) == 1 and isinstance(s.targets[0], ast.Name) and s.targets[0].id != var:
+            return f"(let {self.local(s.targets[0].id)} := {self.e(s.value)}; {self.ret_cond(rest, var)})"
+        if isinstance(s, ast.Expr) and isinstance(s.value, ast.Constant):
+            return self.ret_cond(rest, var)
         raise Unsupported(f"statement {type(s).__name__} in a loop with early return")
 
     def appended(self, stmts):
@@ -342,7 +349,9 @@ def targets():
     ts = [
         # ------------------------------------------------------------------ C04: per-obstacle dispatch
         T4("StaticObstacle_occupancy_at_time", OB, "occupancy_at_time", "StaticObstacle", [("time_step", "time_step : Int")],
-           "Option (Int × CR.Occ.Occ)", attrs={("self", "_initial_occupancy_shape"): "CR.Occ.Occ.init"}, kwnames=occ_kw,
+           "Option (Int × CR.Occ.Occ)",
+           attrs={("self", "_initial_occupancy_shape"): "CR.Occ.Occ.init", ("self", "_obstacle_shape"): "CR.Occ.Occ.shape",
+                  ("self", "obstacle_shape"): "CR.Occ.Occ.shape"}, kwnames=occ_kw,
            calls=occ_call, doc="`self._initial_occupancy_shape` is the symbolic `Occ.init`"),
         T4("StaticObstacle_state_at_time", OB, "state_at_time", "StaticObstacle", [("time_step", "time_step : Int")],
            "Option CR.Occ.StRef", attrs={("self", "initial_state"): "CR.Occ.StRef.init", ("self", "_initial_state"): "CR.Occ.StRef.init"}),
@@ -460,10 +469,10 @@ def targets():
            kwnames={"ShapeGroup": ["shapes"]}, accs={"new_shapes": "CR.Rigid.Shape"}, monadic=True,
            doc="`s.rotate_translate_local` on a member is the model's dispatch Place.place (its branches are the ties of this file)"),
         # ------------------------------------------------------------------ C16
-        T4("Interval_round", U, "__round__", "Interval", [(None, "rnd : Rat → Rat"), ("self", "self : CR.Iv.I"), ("n", "n : Option Int")],
+        T4("Interval_round", U, "__round__", "Interval", [(None, "rnd : Option Int → Rat → Rat"), ("self", "self : CR.Iv.I"), ("n", "n : Option Int")],
            "CR.Iv.I", attrs=dict(I), monadic=True,
-           calls={"round": ("(rnd {0})", False), "type(self)": ("Interval_new", True), "Interval": ("Interval_new", True)},
-           doc="`round(x, n)` is the parameter rnd; the constructor is the one translated in Gen.Src"),
+           calls={"round": ("(rnd {1} {0})", False), "type(self)": ("Interval_new", True), "Interval": ("Interval_new", True)},
+           doc="`round(x, n)` is the parameter `rnd n x`; the constructor is the one translated in Gen.Src"),
         T4("Interval_dunder_contains", U, "__contains__", "Interval", [("self", "self : CR.Iv.I"), ("value", "value : Rat")], "Bool",
            attrs=dict(I), calls={"self.contains": ("Interval_contains_num self", False)}),
         T4("AngleInterval_add", U, "__add__", "Interval",
